@@ -303,6 +303,9 @@ void Runner::exec_op(Thread *t, int idx) {
         else probe(P_wouldblock_read);
         if (h->nonblocking && pp && (pp->len > 0 || pp->writers == 0) && !injected_in_op(idx, v))
           viol("C17", "wouldblock-with-data", "", "nonblocking read returned would-block although data or end-of-file was available", idx);
+        // ... and at the end of the stream that is the closed-stream error withheld (a reader looping on would-block never ends)
+        if (h->nonblocking && pp && pp->len == 0 && pp->writers == 0 && !injected_in_op(idx, v))
+          viol("C02", "end-of-stream-not-reported", "", "read returned would-block on a stream whose writers are all gone and whose data has been delivered", idx);
       } else if (!injected_in_op(idx, v)) {
         c14("unexpected-error", fmt("read returned %s without any injected failure", errname(v).c_str()));
       }
